@@ -80,7 +80,7 @@ example : Thick.thickPoints ((⟨⟨2, 2⟩, ⟨6, 4⟩⟩ : Line).translate ⟨
 example : Thick.styledBoundingBox ((⟨⟨2, -3⟩, ⟨9, 1⟩⟩ : Line).translate ⟨-7, 3⟩) 5 =
     some ⟨⟨-6, -2⟩, ⟨10, 8⟩⟩ := by decide
 
--- [V] stroked line: `translate_mut` gives the same line as `translate` (mutation is not modelled): carried by the oracle only
+-- [V] stroked line, `translate_mut`: that Rust's `&mut self` field assignment is the functional field update of the model is language semantics, carried by the oracle only (`C07:translate-mut-differs` compares both methods on the real code); PROVED on the model of the in-place body as the source writes it (EG/Model/TranslateMut.lean), for all inputs: `line_translate_mut` (Props/C07/TranslateMut.lean)
 -- [V] stroked line: coordinates / widths for which the real `i32` arithmetic overflows (`thickness_threshold`, walker positions; the model's `Int` is unbounded, C08's topic): carried by correspondence + oracle only
 
 end EG.C07.ThickLine
